@@ -130,6 +130,11 @@ func (e *Engine) load(patterns []string, tags string, overlay map[string][]byte)
 			sp.Build()
 		}
 	}
+	for _, sp := range prog.AllPackages() {
+		if strings.HasPrefix(sp.Pkg.Path(), "github.com/superfly/ltx") || strings.HasPrefix(sp.Pkg.Path(), "github.com/benbjohnson/litestream") {
+			sp.Build()
+		}
+	}
 	// contracts: comment-only files in the repository (guarded by the verif tag)
 	var cfiles []string
 	for _, p := range pkgs {
